@@ -360,6 +360,20 @@ class SymStr(Proxy):
                 if i == -1:
                     return parts[-1][-1]
                 return self._from_parts(parts[:-1] + ([parts[-1][:-1]] if parts[-1][:-1] else []))
+        if isinstance(i, slice) and i.step is None and isinstance(i.start, (int, type(None))) and isinstance(i.stop, (int, type(None))) \
+                and not isinstance(i.start, bool) and not isinstance(i.stop, bool):
+            # s[a:-b] where the term starts with a literal of at least a characters and ends with one of at least b: exact and syntactic
+            a = i.start or 0
+            b = -i.stop if (i.stop is not None and i.stop < 0) else (0 if i.stop is None else None)
+            parts = self._parts()
+            if a >= 0 and b is not None and len(parts) >= 2 and (a == 0 or (isinstance(parts[0], str) and "\\u{" not in parts[0] and len(parts[0]) >= a)) \
+                    and (b == 0 or (isinstance(parts[-1], str) and "\\u{" not in parts[-1] and len(parts[-1]) >= b)):
+                new = list(parts)
+                if a:
+                    new[0] = new[0][a:]
+                if b:
+                    new[-1] = new[-1][:-b]
+                return self._from_parts([p for p in new if not (isinstance(p, str) and p == "")])
         if isinstance(i, slice):
             if i.step is not None:
                 self._loud("slice step")
